@@ -186,6 +186,13 @@ func (rc *RPCClient) SyncRequest(ctx context.Context, rpcReq *RPCRequest) (rpcRe
 		SetError(rpcRes).
 		Post("")
 
+	if rpcRes == nil {
+		// A JSON null body makes the decoder nil out the pointer we passed to SetResult
+		rpcRes = new(RPCResponse)
+		if err == nil {
+			err = errors.New("null response")
+		}
+	}
 	// Restore the original ID
 	rpcRes.ID = rpcReq.ID
 	if err != nil {
